@@ -238,8 +238,10 @@ class ProviderMdibMethods:
                 continue
             if state.ContextAssociation != pm_types.ContextAssociation.DISASSOCIATED \
                     or state.UnbindingMdibVersion is None:
+                was_associated = state.ContextAssociation == pm_types.ContextAssociation.ASSOCIATED
                 state.ContextAssociation = pm_types.ContextAssociation.DISASSOCIATED
-                if state.UnbindingMdibVersion is None:
+                # a state that was associated again after an earlier unbinding still carries the old marks
+                if was_associated or state.UnbindingMdibVersion is None:
                     state.UnbindingMdibVersion = unbinding_mdib_version
                     state.BindingEndTime = time.time()
                 disassociated_state_handles.append(state.Handle)
